@@ -3,6 +3,7 @@
 # lanes. Each lane has its own scratch worktree of /repo and its own copy of the harness (path
 # dependencies rewritten to that worktree, own target directory) under /tmp/lane<k>, so that /repo
 # and /verif/harness stay untouched. Scratch only: `clean` removes everything again.
+# LANES_PAT=<regex> restricts the run to matching directories.
 # Results: /tmp/lanes/<k>.log, one line per change (CAUGHT / MISSED <rc>).
 N=${2:-4}
 case "$1" in
@@ -23,7 +24,7 @@ lane)
   # optional 4th argument: take the share of lane <share> in reverse order (a helper lane that
   # works towards a slow lane from the other end)
   k=$3; L=/tmp/lane$k; share=${4:-$k}; rev=cat; [ -n "$4" ] && rev=tac
-  ls -d /verif/seeded/*/ | sort | awk -v n=$N -v k=$share 'NR % n == k % n' | $rev | while read d; do
+  ls -d /verif/seeded/*/ | grep -E "${LANES_PAT:-.}" | sort | awk -v n=$N -v k=$share 'NR % n == k % n' | $rev | while read d; do
     d=${d%/}
     id=$(basename $d | sed 's/^own-//; s/-.*//')
     cd $L/repo && git checkout -q -- . && git apply $d/patch.diff 2>/dev/null || { echo "$(date +%H:%M:%S) NOAPPLY $d"; cd $L/repo && git checkout -q -- .; continue; }
